@@ -127,12 +127,31 @@ def cfg? (t : String) : Option St := do
 def prog? (t : String) : Option (List Instr) :=
   ((t.splitOn ";").filter (fun s => s.trimAscii.toString ≠ "")).mapM instr?
 
+/-- Python object identity, resolved statically: `+x` returns `x` ITSELF (`__pos__` returns `self`), and
+`if_then_else(c, t, f)` tests `t is f`.  The model's `ite` compares register indices, so the driver
+maps every register to the first register holding the same object before running the program:
+`un pos a` is an alias of `a`; `ite c t f` with aliased branches is an alias of `t`. -/
+def aliasRoots (is : List Instr) : List Nat :=
+  is.foldl (fun (roots : List Nat) i =>
+    let k := roots.length
+    let r : Nat := match i with
+      | .un .pos a => roots.getD a a
+      | .ite _ t f => if roots.getD t t == roots.getD f f then roots.getD t t else k
+      | _ => k
+    roots ++ [r]) []
+
+def resolveIdentity (is : List Instr) : List Instr :=
+  let roots := aliasRoots is
+  is.map fun i => match i with
+    | .ite c t f => .ite c (roots.getD t t) (roots.getD f f)
+    | j => j
+
 /-- handle one `P|id|cfg|prog` line -/
 def handleProg (fields : List String) : String :=
   match fields with
   | [id, cfg, prog] =>
     match cfg? cfg, prog? prog with
-    | some s0, some is => outStr id (run s0 is)
+    | some s0, some is => outStr id (run s0 (resolveIdentity is))
     | _, _ => s!"{id}|bad-case"
   | _ => "bad-line"
 
